@@ -166,6 +166,8 @@ FREEZE = {
 COPY = {
     "Py::new(slf.py(),({M}(),slf.borrow().clone()))": "cloneKeepFlag",
     "letmutcloned=slf.borrow().clone();cloned.is_immutable=false;Py::new(slf.py(),({M}(),cloned))": "cloneResetFlag",
+    "letmutcloned=slf.borrow().clone();Py::new(slf.py(),({M}(),cloned))": "cloneKeepFlag",
+    "letcloned=slf.borrow().clone();Py::new(slf.py(),({M}(),cloned))": "cloneKeepFlag",
 }
 _PICKLE = (
     "ifletOk((stub,qubit_count,cbit_count,gates))=args.extract::<(Bound<'py,PyString>,usize,usize,Vec<QuantumGate>)>()"
@@ -418,7 +420,13 @@ def _b(x) -> str:
     return "true" if x else "false"
 
 
-def _fam(sh: dict) -> tuple[str, list[str]]:
+# shapes of the unchanged tree: used for an entry whose body is not in the catalogue (the obligation
+# `rust_known_ok` fails anyway; the model then keeps following the installed binary)
+AS_WRITTEN = {"np": {"freeze": "cloneUnlessImmutable", "copy": "cloneKeepFlag", "ctor": "aliasSetFlag"},
+              "par": {"freeze": "cloneUnlessImmutable", "copy": "cloneResetFlag", "ctor": "cloneFlagFalse"}}
+
+
+def _fam(sh: dict, name: str = "par") -> tuple[str, list[str]]:
     unknown = []
     for k in ("freeze", "copy", "ctor", "combine", "getDepth", "depthAlg", "extend"):
         if sh[k] == "unknown":
@@ -428,21 +436,23 @@ def _fam(sh: dict) -> tuple[str, list[str]]:
     if sh["newFlag"] is None:
         unknown.append("newFlag")
     add = sh["add"] or {"invalidates": True, "qubitGe": True, "idxLe": True}
-    fz = sh["freeze"] if sh["freeze"] != "unknown" else "cloneUnlessImmutable"
-    cp = sh["copy"] if sh["copy"] != "unknown" else "cloneResetFlag"
-    ct = sh["ctor"] if sh["ctor"] != "unknown" else "cloneFlagFalse"
+    fz = sh["freeze"] if sh["freeze"] != "unknown" else AS_WRITTEN[name]["freeze"]
+    cp = sh["copy"] if sh["copy"] != "unknown" else AS_WRITTEN[name]["copy"]
+    ct = sh["ctor"] if sh["ctor"] != "unknown" else AS_WRITTEN[name]["ctor"]
     txt = (
         f"{{ freeze := .{fz}, copy := .{cp}, ctor := .{ct}, invalidates := {_b(add['invalidates'])}, "
-        f"qubitGe := {_b(add['qubitGe'])}, idxLe := {_b(add['idxLe'])}, newFlag := {_b(sh['newFlag'])} }}"
+        f"newFlag := {_b(sh['newFlag'])} }}"
     )
-    return txt, unknown
+    return txt, unknown, add
 
 
 def emit() -> tuple[str, int, dict]:
     rs = rust_shapes()
     py = python_shapes()
-    np_txt, u1 = _fam(rs["np"])
-    par_txt, u2 = _fam(rs["par"])
+    np_txt, u1, add1 = _fam(rs["np"], "np")
+    par_txt, u2, add2 = _fam(rs["par"], "par")
+    sem = [("np.add_gate rejects qubit >= qubit_count", add1["qubitGe"]), ("np.add_gate accepts gate_index <= len", add1["idxLe"]),
+           ("par.add_gate rejects qubit >= qubit_count", add2["qubitGe"]), ("par.add_gate accepts gate_index <= len", add2["idxLe"])]
     unknown = ["np." + u for u in u1] + ["par." + u for u in u2]
     for k in ("addDelegates", "addParam", "primitive"):
         if not rs["par"][k]:
@@ -475,12 +485,25 @@ def emit() -> tuple[str, int, dict]:
         f"def rustUnknown : List String := [{', '.join(chr(34) + u + chr(34) for u in unknown)}]",
         f"/-- Python wrappers whose body no longer has the modelled shape: {py_unknown} -/",
         f"def pyUnknown : List String := [{', '.join(chr(34) + u + chr(34) for u in py_unknown)}]",
+        "/-- comparison operators of the range checks of add_gate (the model hard-wires the standard ones) -/",
+        "def rustSem : List (String × Bool) := [" + ", ".join(f'("{a}", {_b(b_)})' for a, b_ in sem) + "]",
+        "end QV.Gen.C20",
+        "",
+    ]
+    ok_lines = [
+        "-- GENERATED by /verif/translate/c20gen.py from the working tree; do not edit.",
+        "import QuriVerif.Generated.C20Shapes",
+        "namespace QV.Gen.C20",
+        "/-- every aliasing-relevant Rust function has a body the translator knows -/",
         "theorem rust_known_ok : rustUnknown = [] := by decide",
+        "/-- the range checks of add_gate are the ones the model hard-wires -/",
+        "theorem rust_semantics_ok : rustSem.all (·.2) = true := by decide",
         "end QV.Gen.C20",
         "",
     ]
     n_entries = 2 * 9 + 5 + len(py)
-    return "\n".join(lines), n_entries, {"rust": rs, "python": py, "unknown": unknown, "py_unknown": py_unknown}
+    return "\n".join(lines), n_entries, {"rust": rs, "python": py, "unknown": unknown, "py_unknown": py_unknown,
+                                         "ok_text": "\n".join(ok_lines)}
 
 
 if __name__ == "__main__":
